@@ -350,6 +350,9 @@ def _rowwise_value(ctx, ex, v, key, loc):
     lvnf = NF.atom(Atom("lv", ctxl.lid))
     idx_ok = len(idx) == 2 and isinstance(idx[0], Num) and nf_equal(idx[0].nf, lvnf) and isinstance(idx[1], Num) and idx[1].nf.as_const() == 0
     ctx.check(rows_ok and idx_ok and not st.data.get("aug"), "C01.d ROW-INDEP", key + "|loop", st.loc(), "row i of the result is written exactly once, from cut i (loop over all cuts, store at [i, 0])", found=f"costs[{_idxs(idx)}] in range {rng}", expected="costs[i, 0] for i in range(k)")
+    if not isinstance(val, Num) or val.nf is None:
+        ctx.undecided(rule, key, st.loc(), "the value stored per cut has no normal form (a library call without a model)", found=repr(val)[:120])
+        return None, None
     valnf = val.nf
     if gather is not None:
         ok_len = nf_equal(lift(gather.shape[0]), lift(K))
@@ -441,16 +444,21 @@ def _same_family(a, b):
     return a is b or getattr(a, "key", None) == getattr(b, "key", object())
 
 
+def _has_det(text):
+    """the sign of the determinant: det_sign of slogdet, or the determinant itself"""
+    return "detsign(" in text or "det(" in text
+
+
 def _sign_test(c, v):
     """What a decided fact says about the determinant sign: 'nonpd' (det_sign <= 0 established), 'pd' (det_sign > 0
     established) or None.  Orientation-independent: `det_sign <= 0`, `not det_sign > 0`, `0 >= det_sign` all read alike."""
-    if c.t[0] != "cmp" or "detsign" not in c.key:
+    if c.t[0] != "cmp" or not _has_det(c.key):
         return None
     lin = as_linear(c.t[2])
     if lin is None:
         return None
     c0, co = lin
-    ks = [k for a, k in co.items() if "detsign" in repr(a)]
+    ks = [k for a, k in co.items() if _has_det(repr(a))]
     if len(ks) != 1 or len(co) != 1 or c0 != 0:
         return None
     k = ks[0]
@@ -487,7 +495,7 @@ def _must_raise_nonpd(ctx, paths, key, loc):
     # conversely, every returning path has taken the positive branch of the sign test (no shortcut around it)
     for k, p in enumerate(q for q in paths if q.outcome == "return"):
         pos = "pd" in [_sign_test(c, v) for c, v in p.facts]
-        side = [repr(c)[:60] for c, v in p.facts if "detsign" not in c.key][-2:]
+        side = [repr(c)[:60] for c, v in p.facts if not _has_det(c.key)][-2:]
         ctx.check(pos, rule, key + f"|return#{k}", loc, "a value is returned only after the determinant sign test came out positive" if pos else "a returning path bypasses the determinant sign test: a degenerate (non-positive-definite) slice gets a finite or -inf cost instead of RuntimeError", found=f"path facts {side}", expected="det_sign > 0 decided on every returning path")
 
 
